@@ -23,6 +23,10 @@ D = decimal.Decimal
 
 def g_dec(d):
     sign, digits, exp = d.as_tuple()
+    if not isinstance(exp, int):
+        # NaN / Infinity: no finite Decimal; a term the model never produces, so that the case
+        # disagrees and the direct oracle reports the concrete input
+        return '(mkdec %s (-1) 0)' % gbool(bool(sign))
     coef = int(''.join(str(x) for x in digits)) if digits else 0
     return '(mkdec %s %s %s)' % (gbool(bool(sign)), gz(coef), gz(exp))
 
